@@ -153,7 +153,7 @@ Section WellFormed.
     | None => false
     | Some f => match f_payload f with
                 | None => false
-                | Some text => match parse text with PTree j => shape_ok Jsoniter false j | _ => false end
+                | Some text => match parse text with PTree j => shape_ok StdJson false j | _ => false end
                 end
     end.
 End WellFormed.
